@@ -6,6 +6,7 @@ every basis state like the fermionic operator it is the image of?) on the implem
 import itertools
 
 import numpy
+from fractions import Fraction
 
 from common import (Stream, budget, enc_op, canon_op_json, to_gq, dyadic, rng_for, show, gq_key)
 
@@ -39,11 +40,17 @@ OPEN_STATEMENTS = [
     'linearity / multiplicativity / dagger-compatibility of jordan_wigner are consequences of jw_exact in the Spec '
     'semantics (jw_mul_sound, jw_add_sound are the Model-level halves); they are not stated as separate theorems and '
     'are checked exactly on the implementation\'s values',
-    'jw_jellium_direct_sound / jw_jellium_direct_eq_jordan_wigner / jellium_grid_index_structure ARE theorems (every '
-    'grid, every dimension and lengths, spinless / spinful, with / without constant) over the exact index structure with '
-    'the momentum sums abstract; hypotheses: K, P even, sum of P over the grid = 0 (true for the real sums; for the '
-    'library\'s floats they hold to rounding and are checked numerically on every generated grid), exact-regime flags '
-    '(which FAIL on grids where a coefficient is an exact-zero sum evaluated to ~1e-17 and then deleted by +=: counted)',
+    'jw_jellium_direct_sound / jw_jellium_direct_sound_of_flags / jw_jellium_direct_eq_jordan_wigner / '
+    'jellium_grid_index_structure ARE theorems (every grid, every dimension and lengths, spinless / spinful, with / without '
+    'constant) over the exact index structure with the momentum sums abstract; hypotheses: K, P even, sum of P over the grid '
+    '= 0, exact-regime flags.  What is established for the LIBRARY (floating point): (a) each of the two paths equals the Model '
+    'evaluated on the library\'s own float tables K, P - the FermionOperator exactly (keys and coefficients, deletions by += '
+    'included), the direct form exactly on its set of strings and to 1e-9 on coefficients; (b) on float tables the hypotheses '
+    '"even" and "sum P = 0" hold to rounding only (checked to 1e-9 on every grid) and sum P = 0 never holds exactly, so the '
+    'theorem is never applied to float tables: it is applied to the exact rational tables of stream '
+    'dual-basis-jellium-exact-tables (all hypotheses evaluated by the driver, all hold); (c) on the 20 of 64 float runs (the 10 runs on the 2x3 / 3x2 grids, both paths) whose '
+    'exact-regime flag fails (a coefficient that is an exact-zero sum evaluated to ~1e-15 is deleted by +=) nothing beyond (a) '
+    'and the numeric 1e-9 comparison fast-path vs jordan_wigner(model) of stream dual-basis-jellium is claimed',
     'jordan_wigner_dual_basis_hamiltonian: no Model (float cos/pi); compared with jordan_wigner of the FermionOperator '
     'model, tolerance 1e-9',
 ]
@@ -821,7 +828,10 @@ def stream_jellium_model(ctx):
     from common import from_gq
     for (kind, case, impl, _), mo in zip(reqs, answers):
         if kind == 'ok':
-            st.count('theorem-hypothesis exact-regime: %s' % ('holds' if mo else 'fails (tolerance deletion)'))
+            st.count('float tables, exact-regime flag of this path: %s' %
+                     ('holds' if mo else 'fails (a coefficient that is an exact-zero sum evaluated to ~1e-15 was deleted by '
+                      '+=; Model mirrors the deletion, comparison with the Model stays exact; the two library paths are then '
+                      'tied by the numeric 1e-9 comparison of stream dual-basis-jellium only)'))
         elif kind == 'points':
             if impl != mo:
                 st.disagree('all_points_indices: order differs', case, impl, mo)
@@ -845,6 +855,92 @@ def stream_jellium_model(ctx):
             if worst > 1e-9 * big:
                 st.violate('jordan_wigner_dual_basis_jellium: coefficient differs from the Model closed form', case,
                            {'max_abs_difference': worst})
+    return st
+
+
+COS_TABLE = {1: {0: 1}, 2: {0: 1, 1: -1}, 3: {0: 1, 1: Fraction(-1, 2), 2: Fraction(-1, 2)},
+             4: {0: 1, 1: 0, 2: -1, 3: 0},
+             6: {0: 1, 1: Fraction(1, 2), 2: Fraction(-1, 2), 3: -1, 4: Fraction(-1, 2), 5: Fraction(1, 2)}}
+
+
+def stream_jellium_exact(ctx):
+    """instances on which EVERY hypothesis of jw_jellium_direct_sound holds exactly"""
+    import math
+    from openfermion.utils import Grid
+    st = Stream('dual-basis-jellium-exact-tables', 'grids whose cosines are rational (lcm of the lengths in {1,2,3,4,6}): '
+                'K(delta) = sum_k cos(k.r_delta) |m_k|^2 / 2n and P(delta) = sum_k cos(k.r_delta) / |m_k|^2 computed as exact '
+                'rationals from the library\'s momentum integers (units 2 pi / a = 1, prefactor 2 pi / Omega = 1); on these the '
+                'driver evaluates ALL hypotheses of jw_jellium_direct_sound_of_flags (K, P even and sum P = 0 exactly; both '
+                'exact-regime flags) and the Spec oracle re-checks the conclusion (the Model direct form acts like the Model '
+                'FermionOperator on every basis state, n_qubits <= 10); spinless and spinful, with and without a constant')
+    shapes = [(2,), (3,), (4,), (6,), (2, 2), (2, 3), (3, 2), (3, 3), (2, 4), (4, 2), (2, 2, 2), (6, 1), (1, 3, 2)]
+    if ctx.tier == 'thorough' or ctx.drift:
+        shapes += [(4, 4), (2, 6), (3, 6), (2, 2, 3), (3, 2, 2), (2, 3, 2)]
+    reqs, meta = [], []
+    for shape in shapes:
+        d = len(shape)
+        D = 1
+        for L in shape:
+            D = D * L // math.gcd(D, L)
+        if D not in COS_TABLE:
+            continue
+        n = 1
+        for L in shape:
+            n *= L
+        grid = Grid(d, shape, 1.0)
+        pts = [tuple(int(x) for x in p) for p in grid.all_points_indices()]
+        mints = {p: [int(x) for x in grid.index_to_momentum_ints(p)] for p in pts}
+        K = [Fraction(0)] * n
+        P = [Fraction(0)] * n
+        for b in pts:
+            kc, pc = Fraction(0), Fraction(0)
+            for kpt in pts:
+                m = mints[kpt]
+                msq = sum(x * x for x in m)
+                if msq == 0:
+                    continue
+                r = sum(mi * bi * (D // L) for mi, bi, L in zip(m, b, shape)) % D
+                c = Fraction(COS_TABLE[D][r])
+                kc += c * msq / (2 * n)
+                pc += c / msq
+            t, stride = 0, 1
+            for i, L in zip(b, shape):
+                t += i * stride
+                stride *= L
+            K[t], P[t] = kc, pc
+        for spinless in (True, False):
+            nq = n * (1 if spinless else 2)
+            if nq > 12:
+                continue
+            for const in (None, Fraction(7, 4)):
+                case = {'fn': 'jw_jellium_direct_sound (exact tables)', 'lengths': list(shape), 'spinless': spinless,
+                        'constant': None if const is None else to_gq(const)}
+                st.case(case)
+                st.count('exact-tables:d=%d:%s' % (d, 'spinless' if spinless else 'spinful'))
+                args = {'lengths': list(shape), 'spinless': spinless, 'kin': [to_gq(x) for x in K],
+                        'pot': [to_gq(x) for x in P], 'constant': None if const is None else to_gq(const)}
+                for op in ('c04.jellium_hyp', 'c04.jellium_direct_ok', 'c04.jellium_model_ok', 'c04.jellium_direct',
+                           'c04.jellium_model'):
+                    reqs.append(dict(args, op=op))
+                meta.append((case, nq))
+    ans = ctx.driver.run(reqs)
+    oreqs, ocases = [], []
+    for i, (case, nq) in enumerate(meta):
+        hyp, okd, okm, Q, A = ans[5 * i: 5 * i + 5]
+        st.count('hypotheses K, P even and sum P = 0 (exact): %s' % ('hold' if hyp else 'FAIL'))
+        st.count('exact-regime flags (direct, model): %s' % ('both hold' if okd and okm else 'direct=%s model=%s' % (okd, okm)))
+        if not hyp:
+            st.violate('exact rational tables do not satisfy the hypotheses of jw_jellium_direct_sound', case, {})
+        if hyp and okd and okm:
+            st.count('theorem applies (all hypotheses hold)')
+            if nq <= 10:
+                oreqs.append(oracle('fermion', nq, ['op', A], Q))
+                ocases.append(case)
+    for case, a in zip(ocases, ctx.driver.run(oreqs)):
+        st.count('oracle:checked')
+        if not a['eq']:
+            st.violate('Model direct form does not act like the Model FermionOperator although all hypotheses hold', case,
+                       {'witness_state': a['state']})
     return st
 
 
@@ -1492,4 +1588,4 @@ def stream_hardening(ctx):
 
 def run(ctx):
     return [stream_fermion(ctx), stream_helpers(ctx), stream_tensors(ctx), stream_reverse(ctx),
-            stream_jellium(ctx), stream_jellium_model(ctx), stream_hardening(ctx)]
+            stream_jellium(ctx), stream_jellium_model(ctx), stream_jellium_exact(ctx), stream_hardening(ctx)]
